@@ -784,12 +784,15 @@ def install(tap, run):
             run.mark_nontrivial("tts", ds.coordinates[0], np.sort(test), len(ds.data), ds.weights is not None)
 
     # ---- SplineCV -----------------------------------------------------------
-    tap.method(bc.BaseGridder, "fit", post=post_fit, pre=pre_fit)
-    tap.method(bc.BaseGridder, "score", post=post_score, pre=pre_score)
-    tap.function(bu, "score_estimator", post=post_score_estimator)
+    # documented defaults: an argument the caller leaves out is judged with the default the documentation states, not with
+    # whatever the signature of the tree under test supplies
+    tap.method(bc.BaseGridder, "fit", post=post_fit, pre=pre_fit, documented={"weights": None})
+    tap.method(bc.BaseGridder, "score", post=post_score, pre=pre_score, documented={"weights": None})
+    tap.function(bu, "score_estimator", post=post_score_estimator, documented={"weights": None})
     tap.function(ms, "select", post=post_select)
-    tap.function(ms, "cross_val_score", post=post_cvs, pre=pre_cvs)
-    tap.function(ms, "train_test_split", post=post_tts)
+    tap.function(ms, "cross_val_score", post=post_cvs, pre=pre_cvs,
+                 documented={"weights": None, "cv": None, "client": None, "delayed": False, "scoring": None})
+    tap.function(ms, "train_test_split", post=post_tts, documented={"weights": None, "spacing": None, "shape": None})
 
 
 def judge_splinecv(run, ev):
